@@ -18,6 +18,8 @@ func main() {
 	switch os.Args[1] {
 	case "run":
 		os.Exit(run(os.Args[2:]))
+	case "replay":
+		os.Exit(replay(os.Args[2:]))
 	default:
 		fmt.Fprintln(os.Stderr, "unknown command", os.Args[1])
 		os.Exit(3)
@@ -46,4 +48,12 @@ func run(args []string) int {
 		return 3
 	}
 	return exec.Main(&spec, exec.Options{Tier: *tier, Only: *only, Workers: *workers, Root: *root, Evidence: *evidence, NoReplay: *noReplay, Seed: *seed})
+}
+
+func replay(args []string) int {
+	fs := flag.NewFlagSet("replay", flag.ExitOnError)
+	root := fs.String("root", "/verif", "verif root")
+	file := fs.String("file", "", "replay file")
+	fs.Parse(args)
+	return exec.ReplayMain(*root, *file)
 }
